@@ -307,6 +307,17 @@ class Hooks(BaseHooks):
         except Exception:  # noqa: BLE001
             col = None
             viol.append(V("history", i, "residual_history is not a list of [m, res_ym, res_xm]"))
+        if col is not None and isinstance(info.get("iterations"), (int, np.integer)) and not bzero:
+            # the record is self-consistent: one history row per cycle run, numbered 1..k
+            if len(col) != int(info["iterations"]):
+                viol.append(V("history", i, f"iterations = {info['iterations']} but the history has {len(col)} rows"))
+            else:
+                try:
+                    idx = [int(h[0]) for h in hist]
+                except Exception:  # noqa: BLE001
+                    idx = None
+                if idx is not None and idx != list(range(1, len(idx) + 1)):
+                    viol.append(V("history", i, f"history rows are numbered {idx}, expected 1..{len(idx)}"))
         if col:
             if not all(math.isfinite(c) for c in col):
                 viol.append(V("nan", i, f"non-finite residual history {col[:6]}"))
